@@ -65,14 +65,24 @@ def gen_case(rng):
             kind = "var"
             fmt = rng.choice(ORDERS) + letter
         op = rng.choice(["read", "read", "wconst", "wvar", "wexpr", "iadd",
-                         "isub", "wreg"])
+                         "isub", "wreg", "wcopy"])
         val = rng.getrandbits(8 * size)
         if rng.random() < 0.3:
             val = rng.choice([0, 1, (1 << (8 * size)) - 1,
                               1 << (8 * size - 1), 0x1234567890abcdef
                               & ((1 << (8 * size)) - 1)])
+        extra = {}
+        if op == "wcopy":
+            # a direct copy from another packet variable (any width/order)
+            sl = rng.choice(LETTERS)
+            ssize = struct.calcsize(sl)
+            if ssize > G:
+                sl, ssize = "B", 1
+            extra = dict(sfmt=rng.choice(ORDERS) + sl,
+                         sp=rng.randint(0, G - ssize))
         acc.append(dict(kind=kind, fmt=fmt, p=p, op=op, val=val,
-                        amount=rng.choice([1, 3, 7, 255, 65536, -1, -5])))
+                        amount=rng.choice([1, 3, 7, 255, 65536, -1, -5]),
+                        **extra))
     lens = sorted(set(
         [n for n in range(max(14, G - 6), G + 7)] +
         [rng.randint(G + 7, G + 300), 1400]))
@@ -100,6 +110,8 @@ def build(case):
         ns[f"i{i}"] = m.globalVar(letter)
         if a["kind"] == "var":
             ns[f"pv{i}"] = PacketVar(a["p"], a["fmt"])
+        if a["op"] == "wcopy":
+            ns[f"ps{i}"] = PacketVar(a["sp"], a["sfmt"])
 
     def body(self, pk):
         self.mark = 1
@@ -130,6 +142,8 @@ def build(case):
                 put(inp)
             elif a["op"] == "wexpr":
                 put(inp + 1)
+            elif a["op"] == "wcopy":
+                put(getattr(self, f"ps{i}"))
             elif a["op"] == "wreg":
                 # a bare register stored twice and read back afterwards:
                 # the store must not change the register
@@ -208,6 +222,10 @@ def expected(case, pkt):
             outs[i] = v & ((1 << 64) - 1)
         elif a["op"] == "wexpr":
             out[a["p"]:a["p"] + size] = enc(a["val"] + 1)
+        elif a["op"] == "wcopy":
+            sf = a["sfmt"] if len(a["sfmt"]) > 1 else "=" + a["sfmt"]
+            out[a["p"]:a["p"] + size] = enc(
+                struct.unpack_from(sf, out, a["sp"])[0])
         elif a["op"] == "iadd":
             out[a["p"]:a["p"] + size] = enc(cur + a["amount"])
         elif a["op"] == "isub":
@@ -388,7 +406,7 @@ def finalize(res, tier, seed):
     missing = []
     for kind in ("var", "arr"):
         for op in ("read", "wconst", "wvar", "wexpr", "iadd", "isub",
-                   "wreg"):
+                   "wreg", "wcopy"):
             if not any(k.startswith(f"cmp[{kind}/{op}/") for k in c):
                 missing.append(f"{kind}/{op}")
     for sw in ("swapped", "native"):
